@@ -540,13 +540,12 @@ class C15(Property):
         'categorize_kw and the `query` operation inside histories (every system of the store is compared with its spec after every operation)',
         'upper_conc_bounds over concentrations spanning 1e-30 … 1e3 (trace species carrying a whole element): exact Fraction reference, the real '
         'double sums are compared to 1e-12 relative (same-sign terms); for dyadic inputs the comparison is exact',
-        'per_substance_varied (dense array of all combinations of varied levels): modelled (rows in C order, ValueError/IndexError cases), '
-        'no theorem; exact correspondence + oracle (every entry of every row against base / varied level)',
+        'per_substance_varied: varied_spec covers success, varied keys, number of rows and the content of every row; the ORDER of the rows '
+        '(C order, first varied substance slowest) is the definition of variedRows and is decided by the exact correspondence with numpy',
         'upper_conc_bounds with the default float64 dtype: driven by the correspondence only for compositions without a zero atom count '
         '(there the model = exact arithmetic = dtype=object path raises ZeroDivisionError while float64 returns inf/nan with a RuntimeWarning: '
         'outside the model); theorems are stated for the exact (Rat) computation; float rounding of sums is not modelled (inputs are dyadic)',
-        'upper bound "for every reachable state": upper_bound_valid is about every non-negative state with equal element totals; that balanced '
-        'reactions preserve the element totals is C05, not re-proved here',
+        '__eq__ of systems / reactions: definitional (Proofs: RSys.pyEq_spec, Rxn.pyEq_iff, listPyEq_refl), tied by correspondence + oracle',
         'non-default skip_keys of upper_conc_bounds, zero stoichiometric coefficients, a bare string as substances: outside the quantifier; the '
         'model mirrors the code and witness theorems document the behaviour',
         'constructor with the DEFAULT checks: modelled as "some requested check raised" (the set is hash-ordered, so WHICH one is not defined); '
